@@ -456,3 +456,22 @@ PROPS["C14"] = {
     "floors": [("synthetic", "accepted/entry-within-13-bytes-of-page-end", 200), ("synthetic", "refused/too-short", 100), ("synthetic", "write-crossing-a-page-boundary", 300),
                ("real-binary", "patched-and-restored", 1000), ("strace-synthetic", "mprotect-on-synthetic-arena", 1000), ("strace-real", "mprotect-on-text", 1000)],
 }
+
+PROPS["C11"] = {
+    "prepare": [prep_refdecoders, prep_corpus],
+    "parallel": 4,
+    "units": [
+        {"name": "rounds", "pkg": "./zverif/c11", "run": "^TestVerifC11$", "race": True, "timeout": {"quick": 500, "thorough": 3000},
+         "shards": {"quick": 1, "thorough": 8}},
+    ],
+    "rule": "race build. rapid draws a round: 2..8 mocker goroutines, each with its own builders, looping apply -> call -> re-stub -> call -> reset -> call "
+            "over two corpus functions of its own (all targets contiguous in the text, sharing pages with each other and with code being executed; "
+            "some mockers address their targets by name), and 2..8 caller goroutines hammering a steady set mocked before the round (Return stubs and "
+            "callbacks forwarding to the origin placeholder of frameless leaves), with generated iteration counts and yield points, all released by a "
+            "spin barrier. Oracle: no data-race report with a goom frame, no crash, every steady call yields the mocked result, every mocker sees "
+            "exactly its own mock after its apply and the original after its reset, at quiescence the text image is pristine (outside placeholder "
+            "bodies) and no text page is writable. Every round is non-trivial; distinct by its parameters.",
+    "assumptions": ["the harness does not own the scheduler: seeded stress under the race detector, sound but incomplete",
+                    "race builds use -gcflags=-d=checkptr=0 (the checkptr instrumentation -race turns on aborts inside CreateFuncForCodePtr; that is not a data race)"],
+    "floors": [("rounds", "steady-calls", 5000), ("rounds", "mocker-apply-restub-reset-cycles", 500)],
+}
